@@ -910,6 +910,26 @@ def directed_programs():
         mk('N_opnd_%s' % x, [asg(V(y), ('bin', '+', V(x), N(1))), asg(V('arr'), V(x)) if False else asg(('idx', 'arr', N(1)), ('un', '-', V(x))),
                              asg(('idx', 'arr', N(2)), ('un', '~', V(x))), ('if', ('un', '!', V(x)), asg(V(y), N(4)), None),
                              asg(('idx', 'arr', N(3)), ('bin', '+', N(2), V(x)))])
+    # S. the end of a case: what follows the last statement of a case that is not the last one (fall-through unless
+    #    the statement leaves the switch on every path)
+    add_ = lambda v, k: asg(V(v), ('bin', '+', V(v), N(k)))
+    lasts = [('ifbreak', [('if', V('b'), ('break',), None)]), ('ifblockbreak', [('if', V('b'), ('block', [asg(V('d'), N(1)), ('break',)]), None)]),
+             ('ifbreakelse', [('if', V('b'), ('break',), asg(V('d'), N(2)))]), ('ifelsebreak', [('if', V('b'), asg(V('d'), N(2)), ('break',))]),
+             ('ifbothbreak', [('if', V('b'), ('block', [asg(V('d'), N(3)), ('break',)]), ('break',))]), ('fall', []), ('break', [('break',)]),
+             ('ifnotbreak', [('if', ('un', '!', V('b')), ('break',), None)]), ('nestedif', [('if', V('b'), ('if', V('d'), ('break',), None), None)])]
+    for ln, last in lasts:
+        for on, opnd in (('a', V('a')), ('X', V('X'))):
+            mk('S_%s_%s' % (ln, on), [('switch', opnd, [([1], [asg(V('c'), N(1))] + last), ([2, 3], [add_('c', 2), ('break',)])], [add_('c', 4)])])
+        mk('S_%s_nodefault' % ln, [('switch', V('a'), [([1], [asg(V('c'), N(1))] + last), ([2], [add_('c', 2)] + last), ([5], [add_('c', 8)])], None)])
+    for ln, jump in (('continue', ('continue',)), ('break', ('break',))):
+        mk('S_loop_%s' % ln, [asg(V('c'), N(0)), ('for', ('asg', '=', V('i'), N(0)), ('bin', '!=', V('i'), N(2)), ('inc', 'x++', V('i')),
+                                                   ('block', [('switch', V('a'), [([1], [add_('c', 1), ('if', V('b'), jump, None)]), ([2], [add_('c', 2), ('break',)])], [add_('c', 4)]),
+                                                              add_('c', 16)]))])
+    fS = dict(name='cnt', ret='unsigned char', params=[], inline=False,
+              body=[('switch', V('a'), [([1], [asg(V('c'), N(1)), ('if', V('b'), ('return', N(7)), None)]), ([2], [add_('c', 2), ('break',)])], [add_('c', 4)]), ('return', V('c'))])
+    for inl in (False, True):
+        fS2 = dict(fS); fS2['inline'] = inl
+        mk('S_return_%d' % inl, [asg(V('d'), ('call', 'cnt', []))], funcs=[fS2])
     for n_, x in enumerate(('s', 't')):
         mk('N_first16_%s' % x, [('if', V('a'), asg(V('a'), N(7)), None), asg(V(x), N(500)), asg(V('b'), ('bin', '+', V(x), N(1))),
                                 asg(V('s' if x == 't' else 't'), ('bin', '+', V(x), N(300)))])
@@ -927,10 +947,10 @@ def long_programs():
     inc = lambda v: ('expr', ('inc', 'x++', V(v)))
     out = {}
 
-    def mk(name, main, extra=()):
+    def mk(name, main, extra=(), funcs=()):
         p = Prog()
         p.globals = [('unsigned char', n, None, None, '') for n in ('a', 'b', 'c', 'd', 'i')] + list(extra)
-        p.funcs = []
+        p.funcs = [dict(f) for f in funcs]
         p.main = list(main)
         out[name] = p
 
@@ -953,6 +973,26 @@ def long_programs():
         mk('L_nested_%d' % k, [('for', ('asg', '=', V('X'), N(0)), ('bin', '!=', V('X'), N(3)), ('inc', 'x++', V('X')),
                                 ('block', [('if', V('Y'), ('block', [inc('c')] * 10 + [('if', ('bin', '==', V('X'), N(2)), ('break',), None)] + [inc('d')] * k), None)] +
                                  [inc('a')] * 30))])
+    # a condition that is long itself: the branches of || alternatives (and of the left operand of &&) jump over
+    # the evaluation of everything to their right, to a label of the condition, not of the statement
+    ARR = [('unsigned char', 'arr', None, 32, '')]
+    for n in range(19, 25):
+        big = ('bin', '==', ('idx', 'arr', N(0)), N(1))
+        for k in range(1, n):
+            big = ('bin', '||', big, ('bin', '==', ('idx', 'arr', N(k)), N(k + 1)))
+        mk('L_or_%d' % n, [('if', ('bin', '||', V('a'), big), ('block', [asg(V('c'), N(1))]), ('block', [asg(V('c'), N(2))]))], extra=ARR)
+        mk('L_whileor_%d' % n, [asg(V('i'), N(0)), ('while', ('bin', '||', V('a'), big), ('block', [inc('i'), asg(V('a'), N(0)), asg(('idx', 'arr', N(n - 1)), N(0)),
+                                                                                                  ('if', ('bin', '==', V('i'), N(3)), ('break',), None)]))], extra=ARR)
+        mk('L_doand_%d' % n, [asg(V('i'), N(0)), ('do', ('block', [inc('c'), inc('i'), ('if', ('bin', '==', V('i'), N(2)), ('break',), None)]),
+                                                  ('bin', '&&', V('a'), big))], extra=ARR)
+        mk('L_ifand_%d' % n, [('if', ('bin', '&&', ('un', '!', V('a')), ('un', '!', big)), ('block', [asg(V('c'), N(1))]), ('block', [asg(V('c'), N(2))]))], extra=ARR)
+    # an early `return` of an inline function whose body is long: the branch to the end of the expansion
+    for n in range(61, 67):
+        for inl in (True, False):
+            f = dict(name='upd', ret='void', params=[], inline=inl, body=[('if', ('bin', '==', V('a'), N(0)), ('return', None), None)] + [inc('c')] * n)
+            f2 = dict(name='upd', ret='void', params=[], inline=inl, body=[('if', ('bin', '==', V('a'), N(0)), ('block', [('return', None)]), None)] + [inc('c')] * n)
+            mk('L_inlret_%d_%d' % (n, inl), [('expr', ('call', 'upd', [])), inc('d')], funcs=[f])
+            mk('L_inlret2_%d_%d' % (n, inl), [('expr', ('call', 'upd', [])), inc('d'), ('expr', ('call', 'upd', []))], funcs=[f2])
     # Y-indexed elements of a 16-bit array in zero page: absolute,Y is the only form
     for k in (11, 12, 13, 14):
         mk('L_sarr_%d' % k, [asg(V('X'), N(2)), ('do', ('block', [asg(V('s'), ('idx', 'sarr', V('Y')))] * k + [('expr', ('inc', 'x--', V('X')))]), V('X'))],
